@@ -4,6 +4,7 @@ package zzverif
 
 import (
 	"github.com/jsightapi/jsight-schema-go-library/formats/json"
+	"github.com/jsightapi/jsight-schema-go-library/internal/lexeme"
 	"github.com/jsightapi/jsight-schema-go-library/notations/jschema"
 	"github.com/jsightapi/jsight-schema-go-library/notations/regex"
 	"github.com/jsightapi/jsight-schema-go-library/rules/enum"
@@ -177,3 +178,49 @@ func ZZC11Shared() {
 }
 
 func init() { ZZHarnesses["ZZC11Shared"] = ZZC11Shared }
+
+// ZZC11Interleave: two documents read in turns (any schedule of `steps` NextLexeme calls) deliver,
+// each, the events they deliver when read alone.
+func ZZC11Interleave() {
+	texts := []string{`[1,{"k":[true]},"s"]`, `{"a":{"b":[null,2]},"c":[]}`, ` [ [ ] ] `, `"x"`}
+	t1 := texts[v.Choose(0, len(texts)-1)]
+	t2 := texts[v.Choose(0, len(texts)-1)]
+	v.Observe("t1", t1)
+	v.Observe("t2", t2)
+	sig := func(lex lexeme.LexEvent, err error) string {
+		if err != nil {
+			return "E:" + c11Sig(err)
+		}
+		return lex.Type().String() + ":" + string(lex.Value())
+	}
+	alone := func(t string, n int) []string {
+		d := json.New("d", t)
+		var out []string
+		for i := 0; i < n; i++ {
+			out = append(out, sig(d.NextLexeme()))
+		}
+		return out
+	}
+	steps := v.Param("steps", 6)
+	d1, d2 := json.New("d1", t1), json.New("d2", t2)
+	var s1, s2 []string
+	for i := 0; i < steps; i++ {
+		if v.Choose(0, 1) == 0 {
+			s1 = append(s1, sig(d1.NextLexeme()))
+		} else {
+			s2 = append(s2, sig(d2.NextLexeme()))
+		}
+	}
+	a1, a2 := alone(t1, len(s1)), alone(t2, len(s2))
+	same := true
+	for i := range s1 {
+		same = same && s1[i] == a1[i]
+	}
+	for i := range s2 {
+		same = same && s2[i] == a2[i]
+	}
+	v.Assert(same, "C11/document-events-depend-on-another-document")
+	v.Reach("C11/interleave")
+}
+
+func init() { ZZHarnesses["ZZC11Interleave"] = ZZC11Interleave }
